@@ -70,6 +70,7 @@ def rto_cases(draw, tier="quick"):
             lk["data"] = (lk["data"] * 6)[:liks[0]["m"]]
     if c["int_vars"]:
         c["unit_pow"] = 0
+        liks[0]["form"] = "cov_vector"      # (the option concerns vectors of variances)
         for lk in liks:
             if lk["form"] == "cov_vector":
                 lk["var"] = [float(max(1, round(4 * v))) for v in lk["var"]]
@@ -409,7 +410,7 @@ def run_hist(c, rec):
 
 
 SUBCHECKS = [
-    SubCheck("C06/linear_rto", run_rto, strategy=rto_cases, n={"quick": 400, "thorough": 10000}, shards={"quick": 8, "thorough": 16}),
+    SubCheck("C06/linear_rto", run_rto, strategy=rto_cases, n={"quick": 800, "thorough": 10000}, shards={"quick": 8, "thorough": 16}),
     SubCheck("C06/ugla", run_ugla, strategy=ugla_cases, n={"quick": 300, "thorough": 6000}, shards={"quick": 8, "thorough": 16}),
     SubCheck("C06/history_independence", run_hist, strategy=hist_cases, n={"quick": 300, "thorough": 6000}, shards={"quick": 8, "thorough": 16}),
 ]
